@@ -873,7 +873,7 @@ def observe(w, op_label, hist_hash):
 
 
 # ---------------------------------------------------------------- driver interface
-N_BLOCKS = {"quick": 256, "thorough": 6000}
+N_BLOCKS = {"quick": 512, "thorough": 6000}
 PER_BLOCK = 4
 
 
